@@ -112,6 +112,7 @@ func (o *vectorOperator) initOutputs(ctx context.Context) error {
 			errChan <- err
 		}
 	}()
+	verifhook.Yield("bin.init.spawned")
 
 	// The loader is always joined: it must not outlive this call.
 	lowCardSide, err := o.rhs.Series(ctx)
